@@ -53,6 +53,9 @@ func IDs() []string {
 func (c *Ctx) fn(rel, name string) *ssaFunc {
 	f := c.P.Func(rel, name)
 	if f == nil {
+		f = c.helper(rel, name)
+	}
+	if f == nil {
 		c.R.Undec(c.R.Prop+".anchor."+rel+"."+name, "", "anchor %s.%s not found in the type-checked program", rel, name)
 		return nil
 	}
